@@ -126,3 +126,55 @@ func VerifH_prefix_two() {
 		}
 	}
 }
+
+// VerifH_prefix_twins (C08): two client identifiers that differ in a single
+// field (an unnamed hardware type, the time of a DUID-LLT, an enterprise number,
+// one opaque byte, the DUID type with equal payload) are different clients: the
+// blocks delegated to them never overlap. Concrete identifiers, the handler the
+// real setupPrefix returns.
+func VerifH_prefix_twins() {
+	h, err := setupPrefix("2001:db8:0:8::/62", "64")
+	vnd.Assert(err == nil && h != nil, "C08 a valid pool is accepted")
+	if err != nil || h == nil {
+		return
+	}
+	mac := net.HardwareAddr{0x02, 0x00, 0x5e, 0x10, 0x00, 0x01}
+	var a, b dhcpv6.DUID
+	switch vnd.Pick("twin", 0, 4) {
+	case 0:
+		a, b = &dhcpv6.DUIDLL{HWType: dhcpIana.HWType(0x0101), LinkLayerAddr: mac}, &dhcpv6.DUIDLL{HWType: dhcpIana.HWType(0x0102), LinkLayerAddr: mac}
+	case 1:
+		a, b = &dhcpv6.DUIDLLT{HWType: dhcpIana.HWTypeEthernet, Time: 1, LinkLayerAddr: mac}, &dhcpv6.DUIDLLT{HWType: dhcpIana.HWTypeEthernet, Time: 2, LinkLayerAddr: mac}
+	case 2:
+		a, b = &dhcpv6.DUIDEN{EnterpriseNumber: 9, EnterpriseIdentifier: []byte{1, 2}}, &dhcpv6.DUIDEN{EnterpriseNumber: 10, EnterpriseIdentifier: []byte{1, 2}}
+	case 3:
+		a, b = &dhcpv6.DUIDOpaque{Type: 200, Data: []byte{1, 2, 3}}, &dhcpv6.DUIDOpaque{Type: 200, Data: []byte{1, 2, 4}}
+	case 4:
+		a, b = &dhcpv6.DUIDLL{HWType: dhcpIana.HWTypeEthernet, LinkLayerAddr: mac}, &dhcpv6.DUIDLLT{HWType: dhcpIana.HWTypeEthernet, Time: 0, LinkLayerAddr: mac}
+	}
+	ask := func(d dhcpv6.DUID) []net.IPNet {
+		msg := &dhcpv6.Message{MessageType: dhcpv6.MessageTypeSolicit}
+		msg.AddOption(dhcpv6.OptClientID(d))
+		msg.AddOption(&dhcpv6.OptIAPD{IaId: [4]byte{0, 0, 0, 1}})
+		resp := &dhcpv6.Message{MessageType: dhcpv6.MessageTypeAdvertise}
+		r, _ := h(msg, resp)
+		vnd.Assert(r == dhcpv6.DHCPv6(resp), "C08 request with a client id is answered and passed on")
+		var out []net.IPNet
+		for _, o := range resp.Options.IAPD() {
+			for _, p := range o.Options.Prefixes() {
+				if p.Prefix != nil {
+					out = append(out, *p.Prefix)
+				}
+			}
+		}
+		return out
+	}
+	pa, pb := ask(a), ask(b)
+	vnd.Cover("twins")
+	vnd.Assert(len(pa) == 1 && len(pb) == 1, "C08 IA_PD holds a prefix or NoPrefixAvail")
+	for _, x := range pa {
+		for _, y := range pb {
+			vnd.Assert(!x.IP.Equal(y.IP), "C08 blocks delegated to different client identifiers never overlap (identifiers that differ in one field)")
+		}
+	}
+}
